@@ -459,6 +459,69 @@ def c05(acc):
     return acc.finish()
 
 
+def mc_writer(acc, M, mode, widths, name, timeout=3000):
+    cfg = f"""SPECIFICATION Spec
+CONSTANTS
+  M = {M}
+  Mode = "{mode}"
+  Emit = TRUE
+  Widths = {{{', '.join(str(w) for w in widths)}}}
+INVARIANTS Inv_Indent Inv_Plain Inv_IndentReadBack Inv_Saturate Inv_Build Inv_Emit
+CHECK_DEADLOCK FALSE
+"""
+    r = tlc("MC_Writer", cfg, name=name, timeout=timeout)
+    acc.add_tlc(r, f"A:MC_Writer mode={mode} M={M} widths={widths}")
+    path = os.path.join(work_dir("beh-" + name), "behaviours.ndjson")
+    write_ndjson(path, r.tagged.get("REPLAY", []))
+    return r, path
+
+
+def writer_traces(acc, n):
+    wd = work_dir("trace-" + acc.pid)
+    tp = os.path.join(wd, "trace.ndjson")
+    args = ["writer-record", "--out", tp, "--n", n, "--seed", SEED]
+    summ, viol, _ = harness(args)
+    ok = validate_trace(acc, "TraceWriter", tp, "C:traces long event sequences (deep nesting, widths 0-9) and random construction sequences", "",
+                        rerun_args=[str(a) for a in args])
+    if summ:
+        acc.traces += summ["traces"] if ok else 0
+        acc.evaluations += summ["events"]
+        acc.nontrivial += summ["nontrivial"]
+        acc.samples += summ["samples"][:3]
+
+
+def c09(acc):
+    """Events built through the API and written are read back identical."""
+    q = acc.tier == QUICK
+    acc.rule = ("(A) MC_Writer build mode: every sequence of <= M construction descriptors out of 57 (BytesStart::new + push/extend/clear/set_name edits, BytesText::new, "
+                "BytesCData::escaped, comment, PI, BytesDecl::new, DOCTYPE, ElementWriter text/empty/cdata/pi) with payloads from a markup-heavy pool: reading the "
+                "written bytes back (reader+attribute+escape specs composed) gives the constructed logical events. (B) the same sequences built with the real "
+                "constructors, written sync and async, read back with the real reader and unescaped. (C) random longer construction sequences validated by TLC. "
+                "non-trivial = sequences of >= 2 descriptors")
+    acc.trusted = ["TLC", "harness/src/writer.rs (descriptor interpreter, logical read-back)", "constructor preconditions as documented (names without blanks/'>', comments without '--', PI without '?>')"]
+    _, p = mc_writer(acc, 2 if q else 3, "build", [0], "MC_Writer-build")
+    summ, viol, _ = harness(["writer-replay", "--file", p, "--prop", acc.pid, "--out-dir", REPLAY_DIR])
+    acc.add_harness(summ, viol, "B:replay construction sequences")
+    writer_traces(acc, 400 if q else 5000)
+    return acc.finish()
+
+
+def c19(acc):
+    """Indentation adds only whitespace between markup and never touches content."""
+    q = acc.tier == QUICK
+    acc.rule = ("(A) MC_Writer indent mode: every sequence of <= M events over the ten kinds (two Text variants; unbalanced allowed; Eof last) x indent char SP/TAB x "
+                "widths: machine output = declarative 'plain output + newline/indent before wrapped markup not following Text/CData', depth saturates at 0, read-back "
+                "with whitespace-only text dropped equals the plain read-back. (B) the same sequences through Writer::new / new_with_indent, sync and async, bytes "
+                "compared, real read-back compared. (C) sequences up to 60 events, nesting past the preallocated 128 indent bytes, widths 0-9. "
+                "non-trivial = sequences of >= 2 events. The serde serializer's indentation is covered by the C06/C13 checks (same rule, SerdeModel)")
+    acc.trusted = ["TLC", "harness/src/writer.rs"]
+    _, p = mc_writer(acc, 4 if q else 5, "indent", [0, 1, 4] if q else [0, 1, 2, 4, 9], "MC_Writer-indent")
+    summ, viol, _ = harness(["writer-replay", "--file", p, "--prop", acc.pid, "--out-dir", REPLAY_DIR])
+    acc.add_harness(summ, viol, "B:replay event sequences")
+    writer_traces(acc, 400 if q else 5000)
+    return acc.finish()
+
+
 def run_check(pid, tier):
     fn = REGISTRY.get(pid)
     if fn is None:
@@ -482,6 +545,9 @@ def replay(pid, path):
     if kind == "escape-replay":
         p = subprocess.run([build_harness(False), "escape-rerun", "--file", path], cwd=ROOT)
         return p.returncode
+    if kind == "writer-replay":
+        p = subprocess.run([build_harness(False), "writer-rerun", "--file", path], cwd=ROOT)
+        return p.returncode
     if kind == "ns-replay":
         p = subprocess.run([build_harness(False), "ns-rerun", "--file", path], cwd=ROOT)
         return p.returncode
@@ -496,4 +562,4 @@ def replay(pid, path):
     return 1
 
 
-REGISTRY = {"C01": c01, "C02": c02, "C03": c03, "C04": c04, "C05": c05, "C08": c08, "C10": c10, "C11": c11, "C12": c12, "C16": c16, "C18": c18}
+REGISTRY = {"C01": c01, "C02": c02, "C03": c03, "C04": c04, "C05": c05, "C08": c08, "C09": c09, "C10": c10, "C11": c11, "C12": c12, "C16": c16, "C18": c18, "C19": c19}
